@@ -138,30 +138,19 @@ pub fn drive(
     let mut stats = CorpusStats::default();
 
     // Enumeration: layers 0..=k sequentially up to k-1, the last layer expanded in parallel.
+    // Layers 0..=min(k,2) are materialised; a third layer is streamed from layer 2 (only its
+    // fingerprints are kept), so memory stays bounded.
     let base_k = cfg.k.min(2);
-    let mut layers = qgen::enumerate(sm, &cfg.seeds, base_k, &cfg.gen);
+    let layers = qgen::enumerate(sm, &cfg.seeds, base_k, &cfg.gen);
+    stats.generated_per_layer = layers.iter().map(|l| l.len()).collect();
+    const SHARDS: usize = 256;
+    let seen: Vec<Mutex<HashSet<u64>>> = (0..SHARDS).map(|_| Mutex::new(HashSet::new())).collect();
     if cfg.k > base_k {
-        let seen: Mutex<HashSet<u64>> = Mutex::new(layers.iter().flatten().map(qgen::fingerprint).collect());
-        for _ in base_k..cfg.k {
-            let last = layers.last().unwrap();
-            let next: Vec<Query> = last
-                .par_iter()
-                .flat_map_iter(|q| {
-                    let ds = qgen::deviations(sm, q, &cfg.gen);
-                    let mut keep = vec![];
-                    let mut s = seen.lock().unwrap();
-                    for d in ds {
-                        if s.insert(qgen::fingerprint(&d)) {
-                            keep.push(d);
-                        }
-                    }
-                    keep
-                })
-                .collect();
-            layers.push(next);
+        for q in layers.iter().flatten() {
+            let f = qgen::fingerprint(q);
+            seen[(f % SHARDS as u64) as usize].lock().unwrap().insert(f);
         }
     }
-    stats.generated_per_layer = layers.iter().map(|l| l.len()).collect();
 
     let compiled = AtomicU64::new(0);
     let rejected = AtomicU64::new(0);
@@ -175,50 +164,56 @@ pub fn drive(
     let irs: Mutex<HashSet<u64>> = Mutex::new(HashSet::new());
     let budget = ctx.budget_s();
 
+    let total = AtomicU64::new(0);
+    let keep = |q: &Query| cfg.keep.as_ref().map(|k| k(q)).unwrap_or(true);
+    let process = |q: &Query, li: usize| {
+        done.fetch_add(1, Ordering::Relaxed);
+        let text = q.text();
+        let iq = match engine::compile(&uni.schema, &text) {
+            Compiled::Ok(iq) => iq,
+            Compiled::Err(e) => {
+                rejected.fetch_add(1, Ordering::Relaxed);
+                *kinds.lock().unwrap().entry(error_kind(&e)).or_insert(0) += 1;
+                return;
+            }
+            Compiled::Panic(p) => {
+                fpanics.fetch_add(1, Ordering::Relaxed);
+                pkeys.lock().unwrap().insert(p.key());
+                on_frontend_panic(&text, &p);
+                return;
+            }
+        };
+        compiled.fetch_add(1, Ordering::Relaxed);
+        irs.lock().unwrap().insert(crate::common::fnv(format!("{:?}", iq.ir_query).as_bytes()));
+        let var_types = match reference::expected_variable_types(sm, q) {
+            Ok(v) => v,
+            Err(_) => {
+                undefined.fetch_add(1, Ordering::Relaxed);
+                return;
+            }
+        };
+        let mut arg_maps = qgen::argument_maps(&var_types, cfg.wide_args, cfg.args_cap_per_var);
+        arg_maps.truncate(cfg.max_arg_maps);
+        let cq = CompiledQuery { q: q.clone(), text, iq, var_types, arg_maps, layer: li };
+        per_query(&cq);
+        for ds in &uni.datasets {
+            for args in &cq.arg_maps {
+                cases.fetch_add(1, Ordering::Relaxed);
+                per_case(&Case { cq: &cq, ds, args });
+            }
+        }
+    };
+
     for (li, layer) in layers.iter().enumerate() {
-        let items: Vec<&Query> = layer.iter().filter(|q| cfg.keep.as_ref().map(|k| k(q)).unwrap_or(true)).collect();
-        stats.queries_total += items.len() as u64;
+        let items: Vec<&Query> = layer.iter().filter(|q| keep(q)).collect();
+        total.fetch_add(items.len() as u64, Ordering::Relaxed);
         let layer_capped = AtomicBool::new(false);
         items.par_iter().for_each(|q| {
             if ctx.elapsed() > budget {
                 layer_capped.store(true, Ordering::Relaxed);
                 return;
             }
-            done.fetch_add(1, Ordering::Relaxed);
-            let text = q.text();
-            let iq = match engine::compile(&uni.schema, &text) {
-                Compiled::Ok(iq) => iq,
-                Compiled::Err(e) => {
-                    rejected.fetch_add(1, Ordering::Relaxed);
-                    *kinds.lock().unwrap().entry(error_kind(&e)).or_insert(0) += 1;
-                    return;
-                }
-                Compiled::Panic(p) => {
-                    fpanics.fetch_add(1, Ordering::Relaxed);
-                    pkeys.lock().unwrap().insert(p.key());
-                    on_frontend_panic(&text, &p);
-                    return;
-                }
-            };
-            compiled.fetch_add(1, Ordering::Relaxed);
-            irs.lock().unwrap().insert(crate::common::fnv(format!("{:?}", iq.ir_query).as_bytes()));
-            let var_types = match reference::expected_variable_types(sm, q) {
-                Ok(v) => v,
-                Err(_) => {
-                    undefined.fetch_add(1, Ordering::Relaxed);
-                    return;
-                }
-            };
-            let mut arg_maps = qgen::argument_maps(&var_types, cfg.wide_args, cfg.args_cap_per_var);
-            arg_maps.truncate(cfg.max_arg_maps);
-            let cq = CompiledQuery { q: (*q).clone(), text, iq, var_types, arg_maps, layer: li };
-            per_query(&cq);
-            for ds in &uni.datasets {
-                for args in &cq.arg_maps {
-                    cases.fetch_add(1, Ordering::Relaxed);
-                    per_case(&Case { cq: &cq, ds, args });
-                }
-            }
+            process(q, li);
         });
         if layer_capped.load(Ordering::Relaxed) {
             capped.store(true, Ordering::Relaxed);
@@ -226,6 +221,37 @@ pub fn drive(
         }
         stats.completed_k = li;
     }
+    // streamed layers beyond the materialised ones
+    if cfg.k > base_k && !capped.load(Ordering::Relaxed) {
+        assert!(cfg.k == base_k + 1, "only one streamed layer is supported");
+        let gen3 = AtomicU64::new(0);
+        let layer_capped = AtomicBool::new(false);
+        layers[base_k].par_iter().for_each(|q| {
+            if ctx.elapsed() > budget {
+                layer_capped.store(true, Ordering::Relaxed);
+                return;
+            }
+            for d in qgen::deviations(sm, q, &cfg.gen) {
+                let f = qgen::fingerprint(&d);
+                if !seen[(f % SHARDS as u64) as usize].lock().unwrap().insert(f) {
+                    continue;
+                }
+                gen3.fetch_add(1, Ordering::Relaxed);
+                if keep(&d) {
+                    total.fetch_add(1, Ordering::Relaxed);
+                    process(&d, cfg.k);
+                }
+            }
+        });
+        stats.generated_per_layer.push(gen3.into_inner() as usize);
+        if layer_capped.load(Ordering::Relaxed) {
+            capped.store(true, Ordering::Relaxed);
+        } else {
+            stats.completed_k = cfg.k;
+        }
+    }
+    stats.queries_total = total.into_inner();
+
 
     stats.compiled = compiled.into_inner();
     stats.rejected = rejected.into_inner();
